@@ -79,6 +79,9 @@ def generate(R, tier):
             if name not in GLOBAL_OK:
                 name = R.choice(GLOBAL_OK)
             steps.append({"call": name, "par": _par(R, name)})
+        sc["persist"] = [R.choice(sorted(catalog.PERSIST)) for _ in range(R.choice([0, 0, 1, 2]))]
+        for j, nm in enumerate(sc["persist"]):
+            steps.insert(R.randint(0, len(steps)), {"call": "use", "obj": j, "par": {}})
         sc["steps"] = steps
         sc["prefix"] = [[R.choice(["prng.random", "py.random", "prng.normal", "prng.shuffle", "reseed", "sampling.sus", "mate.2w"]) for _ in range(R.randint(0, 3))]
                         for _h in range(2)]
@@ -101,6 +104,10 @@ def shrink(sc):
                 c["steps"][i]["par"][key] = small
                 yield c
     if sc["clause"] == "A":
+        if sc.get("persist") and not any(st["call"] == "use" for st in sc["steps"]):
+            c = copy.deepcopy(sc)
+            c["persist"] = []
+            yield c
         if any(sc["prefix"]):
             c = copy.deepcopy(sc)
             c["prefix"] = [[], ["prng.random"]]
@@ -139,13 +146,26 @@ def run_program(sc, prefix, wnum):
             _run_prefix(ctx, prefix)
         except Exception:
             pass
+        # objects that exist before the re-seeding and are used after it
+        pobjs = []
+        for nm in sc.get("persist", []):
+            try:
+                pobjs.append(catalog.PERSIST[nm](catalog.Ctx(sc["world"])))
+            except Exception as e:
+                pobjs.append(e)
         prng.seed(sc["seed"])
         e0 = W.entropy_reads
         digs = []
         for st in sc["steps"]:
             ctx = catalog.Ctx(sc["world"])
             try:
-                out = catalog.CAT[st["call"]]["fn"](ctx, None, st["par"])
+                if st["call"] == "use":
+                    po = pobjs[st["obj"]] if st["obj"] < len(pobjs) else None
+                    if po is None or isinstance(po, Exception):
+                        raise RuntimeError("persistent object unavailable")
+                    out = po[1](ctx, po[0])
+                else:
+                    out = catalog.CAT[st["call"]]["fn"](ctx, None, st["par"])
                 digs.append([_odig(out), rngseam.global_state_digest()])
             except Exception as e:
                 digs.append([["EXC", type(e).__name__, str(e)[:120]], rngseam.global_state_digest()])
@@ -161,10 +181,13 @@ def _first_diff(a, b):
 
 def _exec_A(sc):
     V, log, probes, faults = [], [], {}, {}
+    st0 = (random.getstate(), numpy.random.get_state())
     X, gx, ex = run_program(sc, sc["prefix"][0], sc["worlds"][0])
     faults["prefix_history_switch"] = 1
-    Y1, g1, _ = run_program(sc, sc["prefix"][1], sc["worlds"][0])
+    Y1, g1, _ = run_program(sc, sc["prefix"][1], sc["worlds"][0])      # starts from whatever X left behind, other prefix
     faults["entropy_clock_world_switch"] = 1
+    random.setstate(st0[0])
+    numpy.random.set_state(st0[1])                                      # same interpreter history as X: only the world differs
     Y2, g2, _ = run_program(sc, sc["prefix"][0], sc["worlds"][1])
     log.append(["X", X, gx])
     if ex:
@@ -173,6 +196,8 @@ def _exec_A(sc):
         i = _first_diff(X, Y)
         if i is not None:
             call = sc["steps"][i]["call"]
+            if call == "use":
+                call = "pre-existing:" + sc["persist"][sc["steps"][i]["obj"]]
             what = "output" if X[i][0] != Y[i][0] else "global generator state afterwards"
             V.append(viol("seeded-reproducibility", call, cond,
                           "after prng.seed(%d) step %d (%s): %s differs between two executions that differ only in %s (OS-entropy reads after seeding: %d)"
@@ -194,7 +219,7 @@ def _exec_A(sc):
         Z, gz = json.loads(line[0][9:])
         i = _first_diff(X, Z)
         if i is not None or gz != gx:
-            call = sc["steps"][i]["call"] if i is not None else "global-state"
+            call = (sc["steps"][i]["call"] if sc["steps"][i]["call"] != "use" else "pre-existing:" + sc["persist"][sc["steps"][i]["obj"]]) if i is not None else "global-state"
             V.append(viol("seeded-reproducibility", call, "fresh-interpreter",
                           "result differs in a fresh interpreter with another PYTHONHASHSEED", step=i))
     return V, log, probes, faults
@@ -253,7 +278,7 @@ def execute(sc):
         V, log, probes, faults = _exec_A(sc)
     else:
         V, log, probes, faults = _exec_B(sc)
-    names = sorted(s["call"] for s in sc["steps"])
+    names = sorted(s["call"] if s["call"] != "use" else "use:" + sc["persist"][s["obj"]] for s in sc["steps"])
     trace = "%s|%s|%s" % (sc["clause"], names, sc.get("kind"))
     return {"violations": V, "log": log, "trace": trace, "nontrivial": True, "faults": faults, "probes": probes,
             "sim": {"program_steps": len(sc["steps"]), "executions": 3 if sc["clause"] == "A" else 2}}
